@@ -539,31 +539,40 @@ def main(modname: str, argv: list[str]) -> int:
     violations: list[tuple[str, dict]] = []
     known_lines: list[str] = []
     active: set[str] = set()
-    known_buckets: dict[str, set] = {}
 
     # --- 1. known findings / fixed entries -------------------------------------
-    for e in load_known(pid):
+    entries = load_known(pid)
+    for e in entries:
+        if e["status"] != "known":
+            continue
         part = _part_of(mod, e["part"])
         rec = run_one(part, e["case"], frozenset(), None, {"kind": "witness"})
         got = {b for b, _ in rec.fails}
+        if e["bucket"] in got:
+            known_lines.append(f"KNOWN-FINDING: property={pid} {e['id']} {e['what']}")
+            active.add(e["id"])
+        # witness passes: defect gone, exclusion stays off -> full domain searched
+    for e in entries:
         if e["status"] == "known":
-            if e["bucket"] in got:
-                known_lines.append(f"KNOWN-FINDING: property={pid} {e['id']} {e['what']}")
-                active.add(e["id"])
-                known_buckets.setdefault(e["id"], set()).add(f"{part.name}/{e['bucket']}")
-                extra = got - {e["bucket"]} - set(e.get("also", []))
-                for b in extra:
+            # with its own exclusion armed the witness must be clean: anything
+            # else that fails on it is a different violation
+            if e["id"] in active:
+                part = _part_of(mod, e["part"])
+                rec = run_one(part, e["case"], frozenset(active), None, {"kind": "witness"})
+                for b, d in rec.fails:
                     violations.append(
                         (f"{part.name}/{b}", {"part": part.name, "bucket": b, "case": e["case"],
-                                              "detail": "other failure on a known-finding witness"})
+                                              "detail": d, "note": "other failure on a known-finding witness"})
                     )
-            # witness passes: defect gone, exclusion stays off -> full domain searched
-        else:  # fixed: plain regression replay
-            for b, d in rec.fails:
-                violations.append(
-                    (f"{part.name}/{b}", {"part": part.name, "bucket": b, "case": e["case"],
-                                          "detail": d, "regression_of": e.get("line")})
-                )
+            continue
+        # fixed: plain regression replay (run with the active known findings excluded)
+        part = _part_of(mod, e["part"])
+        rec = run_one(part, e["case"], frozenset(active), None, {"kind": "regression"})
+        for b, d in rec.fails:
+            violations.append(
+                (f"{part.name}/{b}", {"part": part.name, "bucket": b, "case": e["case"],
+                                      "detail": d, "regression_of": e.get("line")})
+            )
     factive = frozenset(active)
 
     # --- 2. replay tier --------------------------------------------------------
